@@ -355,3 +355,48 @@ def import_case(case: dict) -> dict:
     finally:
         os.chdir(old)
         shutil.rmtree(root, ignore_errors=True)
+
+
+# ---------------------------------------------------------------------------
+# C10 / C11: resolution and editing through references
+
+def scope_case(case: dict) -> dict:
+    from nix_manipulator.cli.manipulations import set_value
+    from nix_manipulator.parser import parse
+    out: dict = {}
+    try:
+        with time_limit(10):
+            cur = parse(case["text"])
+            for k in case["keys"]:
+                cur = cur[k]
+            v = cur.value
+            try:
+                txt = v.rebuild().strip()
+            except Exception:  # noqa: BLE001
+                txt = repr(v)
+            out["resolve"] = {"res": "value", "text": txt, "cls": type(v).__name__}
+    except BaseException as e:  # noqa: BLE001
+        if isinstance(e, (KeyboardInterrupt, SystemExit)):
+            raise
+        out["resolve"] = {"res": type(e).__name__, "mro": [c.__name__ for c in type(e).__mro__], "msg": str(e)[:160]}
+    if case.get("edit"):
+        try:
+            with time_limit(10):
+                out["edit"] = {"res": "ok", "text": set_value(parse(case["text"]), ".".join(case["keys"]), "99")}
+        except BaseException as e:  # noqa: BLE001
+            if isinstance(e, (KeyboardInterrupt, SystemExit)):
+                raise
+            out["edit"] = {"res": type(e).__name__, "msg": str(e)[:160]}
+        try:
+            with time_limit(10):
+                src = parse(case["text"])
+                cur = src
+                for k in case["keys"]:
+                    cur = cur[k]
+                cur.value = 98
+                out["assign"] = {"res": "ok", "text": src.rebuild()}
+        except BaseException as e:  # noqa: BLE001
+            if isinstance(e, (KeyboardInterrupt, SystemExit)):
+                raise
+            out["assign"] = {"res": type(e).__name__, "msg": str(e)[:160]}
+    return out
